@@ -26,6 +26,9 @@ type Case struct {
 	Seed    int        `json:"seed"`
 	Mode    int        `json:"mode"`
 	Raw     bool       `json:"raw"` // use WriteRaw
+	// Resize, when set on a resizable spec: the dataset is created with D.Dims, resized to this shape and then written
+	// completely at the new shape (what reads back must be what was written, whatever shape the dataset had before)
+	Resize []uint64 `json:"resize,omitempty"`
 }
 
 var extents = []uint64{1, 2, 3, 4, 5, 7, 8, 11, 13, 16, 17, 31, 32, 64}
@@ -120,6 +123,16 @@ func gen(t *rapid.T) Case {
 		Raw:     rapid.IntRange(0, 5).Draw(t, "raw") == 0,
 	}
 	c.D = genSpec(t, vt.N(4096, 100000))
+	if k, _ := c.D.Base(); c.D.Chunk != nil && (k == "num" || k == "str" || k == "arr") && rapid.IntRange(0, 3).Draw(t, "resizable") == 0 {
+		for range c.D.Dims {
+			c.D.MaxDims = append(c.D.MaxDims, hdf5.Unlimited)
+		}
+		if rapid.IntRange(0, 2).Draw(t, "resized") > 0 {
+			for range c.D.Dims {
+				c.Resize = append(c.Resize, rapid.SampledFrom(extents[:10]).Draw(t, "newExtent"))
+			}
+		}
+	}
 	return c
 }
 
@@ -128,6 +141,9 @@ func classify(c Case) (bool, []string) {
 	labels := []string{fmt.Sprintf("sb=%d", c.SB), fmt.Sprintf("rank=%d", len(c.D.Dims)), "kind=" + kind}
 	if base != "" {
 		labels = append(labels, "base="+base)
+	}
+	if c.Resize != nil {
+		labels = append(labels, "resized_before_write")
 	}
 	partial := false
 	nt := len(c.D.Dims) >= 2 || c.SB != 2 || c.Mode == hist.ModeMixed
@@ -184,6 +200,9 @@ func run(c Case) vt.Verdict {
 	}
 	target := prefix + "data"
 	ops = append(ops, hist.Op{K: "dataset", Path: target, D: &c.D})
+	if c.Resize != nil && c.D.MaxDims != nil && len(c.Resize) == len(c.D.Dims) {
+		ops = append(ops, hist.Op{K: "resize", Path: target, Dims: c.Resize})
+	}
 	w := hist.Op{K: "write", Path: target, Seed: c.Seed, Mode: c.Mode}
 	if c.Raw {
 		w.K = "writeraw"
